@@ -167,7 +167,13 @@ def tlc_scripts(cfg, name, simulate=None, depth=None, seed=None, workers=8, time
         r.cached = True
         return r, d["scripts"]
     r = vlib.tlc(MC_TLA, cfgp, workers=workers, simulate=simulate, depth=depth, seed=seed, timeout=timeout)
-    scripts = [h for _, h in re.findall(r'<<"SCRIPT", (\d+), "([^"]*)">>', r.out) if h]
+    scripts = [h for _, h in re.findall(r'<<\s*"SCRIPT",\s*(\d+),\s*"([^"]*)"\s*>>', r.out, re.S) if h]
+    if simulate:
+        # TLC checks the invariant on every successor it generates before picking one: keep one script per behaviour
+        byprefix = {}
+        for h in scripts:
+            byprefix.setdefault(h.rsplit(";", 1)[0], h)
+        scripts = list(byprefix.values())
     if simulate and r.violation == "timeout":
         r.violation = None
         r.ok = True
